@@ -1,6 +1,11 @@
 package main
 
-import "time"
+import (
+	"time"
+
+	opb "verif/harness/internal/orders/pb"
+	upb "verif/harness/internal/users/pb"
+)
 
 // Named struct types (the walkers use Type.Name() for paths; reflect.StructOf types have none).
 // Field S holds "abc", N holds 7 in the populated instances.
@@ -26,8 +31,10 @@ type WTop struct {
 }
 
 func wleaf() WLeaf { _ = WLeaf{}.hidden; return WLeaf{S: "abc", N: 7} }
-func wmid() WMid   { return WMid{A: wleaf(), P: &WLeaf{S: "abc", N: 7}, Ls: []WLeaf{wleaf(), wleaf()}, D: wleaf(), S: "abc"} }
-func wtop() WTop   { m := wmid(); return WTop{Mid: wmid(), PMid: &m, S: "abc"} }
+func wmid() WMid {
+	return WMid{A: wleaf(), P: &WLeaf{S: "abc", N: 7}, Ls: []WLeaf{wleaf(), wleaf()}, D: wleaf(), S: "abc"}
+}
+func wtop() WTop { m := wmid(); return WTop{Mid: wmid(), PMid: &m, S: "abc"} }
 
 // group-rule types for C17
 type WG struct {
@@ -52,15 +59,39 @@ type WG1 struct {
 // more group shapes: an int-keyed map of objects (entries named MI[3], MI[4]), a botheq group of four
 // members, and botheq groups over kinds that are not comparable with == (slices, maps)
 type WGS2 struct {
-	MI map[int]WG        `valid:"exist"`
-	A  int               `valid:"botheq=3"`
-	B  int               `valid:"botheq=3"`
-	C  int               `valid:"botheq=3"`
-	D  int               `valid:"botheq=3"`
-	S1 []string          `valid:"botheq=4"`
-	S2 []string          `valid:"botheq=4"`
-	M1 map[string]int    `valid:"botheq=5"`
-	M2 map[string]int    `valid:"botheq=5"`
-	E1 WG1               `valid:"botheq=6"`
-	E2 WG1               `valid:"botheq=6"`
+	MI map[int]WG     `valid:"exist"`
+	A  int            `valid:"botheq=3"`
+	B  int            `valid:"botheq=3"`
+	C  int            `valid:"botheq=3"`
+	D  int            `valid:"botheq=3"`
+	S1 []string       `valid:"botheq=4"`
+	S2 []string       `valid:"botheq=4"`
+	M1 map[string]int `valid:"botheq=5"`
+	M2 map[string]int `valid:"botheq=5"`
+	E1 WG1            `valid:"botheq=6"`
+	E2 WG1            `valid:"botheq=6"`
+	P1 *string        `valid:"botheq=7"` // pointers are equal when what they point at is equal
+	P2 *string        `valid:"botheq=7"`
+}
+
+// a self-referential type: the outermost object and the deeper objects have the same type
+type WNode struct {
+	S    string  `valid:"to=5~9|T9"` // "abc": violated by the tag rule
+	Next *WNode  `valid:"exist"`
+	Kids []WNode `valid:"exist"`
+}
+
+func wnode() WNode {
+	return WNode{S: "abc", Next: &WNode{S: "abc", Next: &WNode{S: "abc"}}, Kids: []WNode{{S: "abc"}, {S: "abc", Kids: []WNode{{S: "abc"}}}}}
+}
+
+// two different struct types that print the same String() ("pb.Item")
+type WTwo struct {
+	O  opb.Item   `valid:"exist"`
+	U  upb.Item   `valid:"exist"`
+	Us []upb.Item `valid:"exist"`
+}
+
+func wtwo() WTwo {
+	return WTwo{O: opb.Item{S: "abc", N: 7}, U: upb.Item{S: "abc", N: 7}, Us: []upb.Item{{S: "abc", N: 7}}}
 }
